@@ -651,6 +651,9 @@ class Interp:
                 if target is not None:
                     return self.inline(target, fv[1], args, kw, fr, n)
         if isinstance(f, ast.Name) and f.id == 'getattr' and f.id not in fr.env and len(args) in (2, 3) and args[1][0] == 'const' and isinstance(args[1][1], str):
+            if len(args) == 3 and args[0][0] in ('bvar', 'idx') and A(args[0], args[1][1]) not in self.heap:
+                # an element of a collection may lack the attribute: the default is a value of the expression
+                return ('ite', CALL(S('hasattr'), [args[0], args[1]]), A(args[0], args[1][1]), args[2])
             return self.load(A(args[0], args[1][1]))
         if isinstance(f, ast.Name):
             name = f.id
